@@ -289,6 +289,88 @@ def generate_code(lean_dir: str):
     out.append("/-- `if unichr == NEW and self.cid2unichr.get(cid) == OLD: return` -/\n")
     out.append("def COLLISION_NEW : List Nat := [" + ", ".join(str(ord(c)) for c in rule[0]) + "]\n")
     out.append("def COLLISION_OLD : List Nat := [" + ", ".join(str(ord(c)) for c in rule[1]) + "]\n\n")
+    # pdffont.Type1FontHeaderParser.do_keyword: `if token is self.KEYWORD_X: operands = self.pop(N); if len(operands) != N:
+    # return; ((_, key), (_, value)) = operands; if isinstance(key, K) and isinstance(value, V): self.add_results(...)`
+    cls = next((n for n in font.body if isinstance(n, ast.ClassDef) and n.name == "Type1FontHeaderParser"), None)
+    if cls is None:
+        raise P.Untranslatable("Type1FontHeaderParser not found")
+    kwds = {}
+    for st in cls.body:
+        if isinstance(st, ast.Assign) and isinstance(st.targets[0], ast.Name) and isinstance(st.value, ast.Call) \
+                and isinstance(st.value.func, ast.Name) and st.value.func.id == "KWD" and len(st.value.args) == 1 \
+                and isinstance(st.value.args[0], ast.Constant) and isinstance(st.value.args[0].value, bytes):
+            kwds[st.targets[0].id] = st.value.args[0].value
+    dk = P.find_function(font, "Type1FontHeaderParser.do_keyword")
+    if len(dk.body) != 1 or not isinstance(dk.body[0], ast.If) or dk.body[0].orelse:
+        raise P.Untranslatable("Type1FontHeaderParser.do_keyword is not a single `if token is self.KEYWORD_X:`")
+    test = dk.body[0].test
+    if not (isinstance(test, ast.Compare) and len(test.ops) == 1 and isinstance(test.ops[0], ast.Is)
+            and isinstance(test.left, ast.Name) and test.left.id == dk.args.args[2].arg
+            and isinstance(test.comparators[0], ast.Attribute) and test.comparators[0].attr in kwds):
+        raise P.Untranslatable("Type1FontHeaderParser.do_keyword: test is not `token is self.KEYWORD_X`")
+    put_kw = kwds[test.comparators[0].attr]
+    body = dk.body[0].body
+    ok = len(body) == 4
+    arity = None
+    if ok:
+        a, b, c, d = body
+        ok = (isinstance(a, ast.Assign) and isinstance(a.value, ast.Call) and isinstance(a.value.func, ast.Attribute)
+              and a.value.func.attr == "pop" and len(a.value.args) == 1 and isinstance(a.value.args[0], ast.Constant))
+        if ok:
+            arity = a.value.args[0].value
+            ok = (isinstance(b, ast.If) and isinstance(b.test, ast.Compare) and isinstance(b.test.ops[0], ast.NotEq)
+                  and isinstance(b.test.comparators[0], ast.Constant) and b.test.comparators[0].value == arity
+                  and len(b.body) == 1 and isinstance(b.body[0], ast.Return) and b.body[0].value is None and not b.orelse)
+        if ok:
+            ok = (isinstance(c, ast.Assign) and isinstance(c.targets[0], ast.Tuple) and len(c.targets[0].elts) == arity == 2
+                  and all(isinstance(e, ast.Tuple) and len(e.elts) == 2 for e in c.targets[0].elts))
+        if ok:
+            kname, vname = (e.elts[1].id for e in c.targets[0].elts)
+            t = d.test if isinstance(d, ast.If) else None
+            ok = (t is not None and isinstance(t, ast.BoolOp) and isinstance(t.op, ast.And) and len(t.values) == 2
+                  and all(isinstance(v, ast.Call) and isinstance(v.func, ast.Name) and v.func.id == "isinstance"
+                          and isinstance(v.args[1], ast.Name) for v in t.values)
+                  and [v.args[0].id for v in t.values] == [kname, vname]
+                  and [v.args[1].id for v in t.values] == ["int", "PSLiteral"] and not d.orelse
+                  and len(d.body) == 1 and isinstance(d.body[0], ast.Expr) and isinstance(d.body[0].value, ast.Call)
+                  and getattr(d.body[0].value.func, "attr", None) == "add_results")
+    if not ok:
+        raise P.Untranslatable("Type1FontHeaderParser.do_keyword: body outside the modelled shape "
+                               "(pop(2); return unless two operands; int key and PSLiteral value -> add_results)")
+    out.append("/-- `Type1FontHeaderParser.do_keyword`: the keyword it reacts to (`token is self.KEYWORD_...`) and the number of\n"
+               "operands it pops; the shape of the rest (int key, PSLiteral value -> add_results) is asserted by the translator -/\n")
+    out.append("def T1_PUT_KEYWORD : List UInt8 := [" + ", ".join(str(b) for b in put_kw) + "]\n")
+    out.append(f"def T1_PUT_ARITY : Nat := {arity}\n\n")
+    # pdffont.PDFType3Font.__init__: `if len(font_matrix) != N or not all(isinstance(v, (int, float)) ...): font_matrix = [...]`
+    t3 = P.find_function(font, "PDFType3Font.__init__")
+    t3rule = None
+    for node in ast.walk(t3):
+        if isinstance(node, ast.If) and isinstance(node.test, ast.BoolOp) and isinstance(node.test.op, ast.Or) \
+                and len(node.test.values) == 2 and isinstance(node.test.values[0], ast.Compare) \
+                and isinstance(node.test.values[0].ops[0], ast.NotEq) \
+                and isinstance(node.test.values[0].left, ast.Call) and getattr(node.test.values[0].left.func, "id", "") == "len" \
+                and isinstance(node.test.values[0].comparators[0], ast.Constant) \
+                and isinstance(node.test.values[1], ast.UnaryOp) and isinstance(node.test.values[1].op, ast.Not):
+            inner = node.test.values[1].operand
+            types_ok = (isinstance(inner, ast.Call) and getattr(inner.func, "id", "") == "all" and len(inner.args) == 1
+                        and isinstance(inner.args[0], ast.GeneratorExp) and isinstance(inner.args[0].elt, ast.Call)
+                        and getattr(inner.args[0].elt.func, "id", "") == "isinstance"
+                        and isinstance(inner.args[0].elt.args[1], ast.Tuple)
+                        and sorted(getattr(e, "id", "?") for e in inner.args[0].elt.args[1].elts) == ["float", "int"])
+            assigns = [st for st in node.body if isinstance(st, ast.Assign) and isinstance(st.targets[0], ast.Name)
+                       and st.targets[0].id == "font_matrix" and isinstance(st.value, ast.List)]
+            if types_ok and len(assigns) == 1 and not node.orelse and all(
+                    isinstance(e, ast.Constant) and isinstance(e.value, (int, float)) and not isinstance(e.value, bool)
+                    for e in assigns[0].value.elts):
+                t3rule = (node.test.values[0].comparators[0].value, [e.value for e in assigns[0].value.elts])
+    if t3rule is None:
+        raise P.Untranslatable("PDFType3Font.__init__: FontMatrix validation (len != N or not all numbers -> default) not found")
+    from fractions import Fraction as _Fr
+    dm = [_Fr(repr(v)) for v in t3rule[1]]
+    out.append("/-- `PDFType3Font.__init__`: a FontMatrix that is not a list of exactly this many numbers is replaced by the default -/\n")
+    out.append(f"def T3_MATRIX_LEN : Nat := {t3rule[0]}\n")
+    out.append("def T3_DEFAULT_MATRIX : List Rat := [" + ", ".join(
+        (f"({v.numerator} : Rat) / {v.denominator}" if v.denominator != 1 else f"({v.numerator} : Rat)") for v in dm) + "]\n\n")
     out.append("end PdfVerif.Gen.FontCode\n")
     path = os.path.join(lean_dir, "PdfVerif", "Gen", "FontCode.lean")
     P.write_if_changed(path, "".join(out))
